@@ -59,6 +59,11 @@ void run_it_rec_s(pbt::Source& src, const Cfg& cfg, int kind);
 void run_it_rec_u(pbt::Source& src, const Cfg& cfg, int kind);
 void run_it_recs_s(pbt::Source& src, const Cfg& cfg, int kind);
 void run_it_recs_u(pbt::Source& src, const Cfg& cfg, int kind);
+// ... kinds 2, 3 (second half of the template matrix, own TUs: C07_it_*_b.cpp)
+void run_it_rec_s_b(pbt::Source& src, const Cfg& cfg, int kind);
+void run_it_rec_u_b(pbt::Source& src, const Cfg& cfg, int kind);
+void run_it_recs_s_b(pbt::Source& src, const Cfg& cfg, int kind);
+void run_it_recs_u_b(pbt::Source& src, const Cfg& cfg, int kind);
 
 static const tlx::MultiwayMergeAlgorithm ALG[4] = {tlx::MWMA_LOSER_TREE_COMBINED, tlx::MWMA_LOSER_TREE, tlx::MWMA_LOSER_TREE_SENTINEL,
                                                    tlx::MWMA_BUBBLE};
@@ -852,15 +857,16 @@ void run_case(pbt::Source& src, const Cfg& cfg_in) {
             PBT_CHECK(T::same(IOK::at(bufs[i], j), orig[i][j]), "C07/input-modified", "input sequence " << i << " element " << j << " was modified");
 }
 
-//! target pmerge_iters: dispatch on the iterator kind
+//! target pmerge_iters: dispatch on the iterator kind (kinds 0, 1 and kinds 2, 3 are instantiated in different TUs)
 template <class E, bool Stable>
 void run_iters(pbt::Source& src, const Cfg& cfg, int kind) {
-    switch (kind) {
-    case 0: run_case<E, Stable, IODequeIn<E>>(src, cfg); break;
-    case 1: run_case<E, Stable, IORevIn<E>>(src, cfg); break;
-    case 2: run_case<E, Stable, IODequeOut<E>>(src, cfg); break;
-    default: run_case<E, Stable, IORevOut<E>>(src, cfg); break;
-    }
+    if (kind == 0) run_case<E, Stable, IODequeIn<E>>(src, cfg);
+    else run_case<E, Stable, IORevIn<E>>(src, cfg);
+}
+template <class E, bool Stable>
+void run_iters_b(pbt::Source& src, const Cfg& cfg, int kind) {
+    if (kind == 2) run_case<E, Stable, IODequeOut<E>>(src, cfg);
+    else run_case<E, Stable, IORevOut<E>>(src, cfg);
 }
 
 } // namespace c07
